@@ -61,12 +61,17 @@ def main():
     if do_suite:
         rc, out, t = sh('cargo nextest run --workspace --no-fail-fast --offline --test-threads 8', timeout=6 * 3600)
         m = re.search(r'Summary \[[^\]]*\]\s*(\d+) tests run: (\d+) passed(?: \((\d+) \w+\))?(?:, (\d+) failed)?', out)
-        fails = re.findall(r'^\s+(?:FAIL|TIMEOUT|SIGABRT|SIGSEGV)\s+\[[^\]]*\]\s+\([^)]*\)\s+(.*)$', out, re.M)
+        fails = re.findall(r'^\s+(?:FAIL|TIMEOUT|LEAK|ABORT|SIG[A-Z]+)\s+\[[^\]]*\]\s+\([^)]*\)\s+(.*)$', out, re.M)
         demo_names = [os.path.splitext(os.path.basename(f['dest_in_repo']))[0] for f in meta['demo_files']]
         other = sorted(set(x for x in fails if not any(n in x for n in demo_names)))
         note(f'[3] suite with the patch: exit {rc} ({t}s) summary={m.group(0) if m else None}')
         note('    failing tests other than the demo: ' + (', '.join(other) if other else 'none'))
         res['suite_summary'] = m.group(0) if m else None
+        # cross-check: the number of failed tests in the summary must be the number of distinct failing demo tests
+        n_failed = int(m.group(4) or 0) if m else -1
+        n_demo = len(set(x for x in fails if any(n in x for n in demo_names)))
+        if n_failed != n_demo:
+            other = other + [f'(summary reports {n_failed} failed tests, {n_demo} of them are demo tests)']
         res['suite_other_failures'] = other
     ok = res['demo_clean_exit'] == 0 and res['demo_patched_exit'] != 0 and (not do_suite or (res.get('suite_summary') and not res['suite_other_failures']))
     res['confirmed'] = bool(ok)
